@@ -72,6 +72,14 @@ def next_op(rng, runner, weights=None, allow=None, reuse=0.35) -> dict:
         if n > 1 and rng.random() < 0.3:
             cs[rng.randrange(n)] = cs[0]  # duplicate inside the batch
         no_holes = rng.random() < 0.5
+        if no_holes and rng.random() < 0.12:
+            # streams not positioned at their start: only with no_holes + read-twice (which rewinds), and only when the
+            # tail that the first pass hashes is not itself a content of the pool
+            mid = rng.choice([1, 2, 5])
+            pool = runner.pool
+            if all(len(pool.contents[x]) <= mid or pool.cid_of_bytes(pool.contents[x][mid:]) is None for x in cs):
+                return {'op': 'addPacked', 'on': on, 'cs': cs, 'compress': rng.random() < 0.5, 'no_holes': True,
+                        'read_twice': True, 'via': 'midstream', 'mid': mid}
         return {'op': 'addPacked', 'on': on, 'cs': cs, 'compress': rng.random() < 0.5, 'no_holes': no_holes,
                 'read_twice': rng.random() < 0.5, 'via': rng.choice(['bytes', 'streams', 'single', 'lazy', 'short']),
                 'short': rng.choice([1, 5, 64, 9000])}
